@@ -362,7 +362,11 @@ theorem SimW.callNative (wf : X.WF) (f : Native) {w w0 w1 : Nat} {aa ab : List V
         cases toJValTop hB (ab.getD 0 .unknown) with
         | oof => exact SimW.oof
         | error m => exact retErr _
-        | ok j => exact retVal (ValR.strNone 0 _) (Nat.zero_le _)
+        | ok j =>
+          dsimp only
+          split
+          · exact retErr _
+          · exact retVal (ValR.strNone 0 _) (Nat.zero_le _)
     case num =>
       unfold Jqawk.callNative
       apply SimW.getHeap_bind
@@ -426,7 +430,11 @@ theorem SimW.callNative (wf : X.WF) (f : Native) {w w0 w1 : Nat} {aa ab : List V
         cases toJValTop hB (ab.getD 0 .unknown) with
         | oof => exact SimW.oof
         | error m => exact retErr _
-        | ok j => exact retVal (ValR.strNone 0 _) (Nat.zero_le _)
+        | ok j =>
+          dsimp only
+          split
+          · exact retErr _
+          · exact retVal (ValR.strNone 0 _) (Nat.zero_le _)
     case num =>
       unfold Jqawk.callNative
       apply SimW.getHeap_bind
